@@ -103,6 +103,17 @@ class Prop:
             x = np.zeros(shape)
             for k in range(5):
                 x = x + (0.3 ** k) * outer([[rng.randint(-2, 2) for _ in range(s)] for s in shape])
+        elif cls == "faint":      # genuine components 1e-5 / 1e-6 of the leading one: far above round-off, below any
+            # tolerance meant for something else (the ALS stopping tolerance 1e-4 must not leak into the SVD route)
+            shape = [max(2, s) for s in shape]
+            def vec(s):
+                v = [rng.randint(-2, 2) for _ in range(s)]
+                if not any(v):
+                    v[rng.randrange(s)] = 1
+                return v
+            x = outer([vec(s) for s in shape]) + 1e-5 * outer([vec(s) for s in shape])
+            if rng.random() < 0.5:
+                x = x + 1e-6 * outer([vec(s) for s in shape])
         else:
             x = np.zeros(shape)
         return x
@@ -145,7 +156,7 @@ class Prop:
         cases = []
         algs = ["svd", "eig"]
         k = 0
-        classes = ["generic", "generic", "lowrank", "decay", "zero"]
+        classes = ["generic", "generic", "lowrank", "decay", "zero", "faint"]
         # ---- TT and Tucker ranks
         for _ in range(500 if quick else 5000):
             cls = rng.choice(classes)
@@ -158,6 +169,10 @@ class Prop:
             else:
                 r = rng.randint(1, 5) if rng.random() < 0.4 else [rng.randint(1, 5) for _ in range(N)]
                 op = "tucker"
+            if cls == "faint":
+                alg = "svd"       # as for the matrices below: the Gram-matrix route is not asked to resolve faint components
+                if rng.random() < 0.7:
+                    r = rng.randint(3, 6) if not isinstance(r, list) else [rng.randint(3, 6) for _ in r]   # ranks that fit: exact
             cases.append({"op": op, "x": x.tolist(), "ranks": r, "alg": alg,
                           "tags": dict(op=op, cls=cls, N=N, alg=alg, ranks="list" if isinstance(r, list) else "int",
                                        size1=1 in x.shape)})
